@@ -31,6 +31,8 @@ K_ZERO_MP = "n_jobs-0-not-rejected:multiprocessing-nesting-guard-before-zero-che
 
 
 def z(n):
+    if n is None:          # Parallel() without n_jobs: the backend's default_n_jobs = 1
+        return "1"
     return "(%d)" % n if n < 0 else "%d" % n
 
 
@@ -227,6 +229,24 @@ def mk_tree(levels):
     return t
 
 
+def nested_guard_trees(rng, quick, full=False):
+    """explicit process backends (and the default one) asked for from worker threads and from daemonic multiprocessing
+    workers, with n_jobs in {-3,-2,-1,1,2,3,None}: must all run sequentially"""
+    out = []
+    combos = [(o, i, n) for o in ("threading", "multiprocessing") for i in ("loky", "multiprocessing", None)
+              for n in (-3, -2, -1, 1, 2, 3, None)]
+    if not full:
+        rng.shuffle(combos)
+        keep = [c for c in combos if c[2] is not None and c[2] < 0][:4 if quick else 12] + \
+               [c for c in combos if c[2] is None or c[2] > 0][:2 if quick else 8]
+        combos = keep
+    for o, i, n in combos:
+        out.append([(o, 2, 3), (i, n, 2)])
+    if full or not quick:
+        out.append([("threading", 2, 3), ("threading", 2, 3), ("loky", -2, 2)])
+    return out
+
+
 def gen_trees(rng, quick):
     names = [None, "threading", "loky", "multiprocessing", "sequential"]
     shape = [(2, 4), (2, 3), (2, 3)]   # (n_jobs, tasks): always more tasks than workers
@@ -234,6 +254,7 @@ def gen_trees(rng, quick):
              [(None, 2, 4)], [(None, 0, 1)], [("threading", 2, 3), ("multiprocessing", 0, 1)],
              [("threading", 1, 2)], [("loky", 1, 2)], [("multiprocessing", 1, 2)], [("sequential", 3, 2)],
              [(None, 2, 3), ("threading", 1, 2)], [("threading", 3, 5), ("threading", 1, 2), (None, 2, 2)]]
+    trees += nested_guard_trees(rng, quick)
     for a in names:
         for b_ in names:
             trees.append([(a,) + shape[0], (b_,) + shape[1]])
@@ -277,12 +298,13 @@ def judge_tree(levels, run, model_chain, model_procs):
     for c in calls:
         depth = c["path"].count(".")
         if "raise" in c:
-            got = [-1, 0, 0]
+            got = [-1, 0, 0] if c["raise"] == "ValueError" else [-2, 0, 0]
         else:
             got = [CLASS.get(c["kind"], -9), c["level"], c["eff"]]
-        exp = model_chain[depth] if depth < len(model_chain) else None
-        if got != exp:
-            dis.append({"path": c["path"], "impl": got, "model": exp})
+        if model_chain is not None:
+            exp = model_chain[depth] if depth < len(model_chain) else None
+            if got != exp:
+                dis.append({"path": c["path"], "impl": got, "model": exp})
         if "raise" in c or "kind" not in c:
             continue
         tasks = [e for e in ev if e["e"] in ("S", "E") and e["call"] == c["path"]]
@@ -324,6 +346,23 @@ def judge_tree(levels, run, model_chain, model_procs):
     worker_pids.discard(root_pid)
     if len(worker_pids) > model_procs:
         bad.append("%d distinct worker processes ran tasks, the resolution allows at most %d" % (len(worker_pids), model_procs))
+    # nesting never multiplies worker processes: a call made from a pool thread of a parallel threading call, or
+    # inside a (daemonic) multiprocessing worker, never starts worker processes, whatever backend and n_jobs it asks for
+    by_path = {c["path"]: c for c in calls}
+    for c in calls:
+        if "." not in c["path"]:
+            continue
+        parent = by_path.get(c["path"].rsplit(".", 1)[0])
+        depth = c["path"].count(".")
+        asked_n = levels[depth][1]
+        if "raise" in c and not (c["raise"] == "ValueError" and asked_n == 0):
+            bad.append("nested call %s (backend=%s, n_jobs=%s) raised %s" % (c["path"], levels[depth][0], asked_n, c["raise"]))
+            continue
+        if parent is None or "kind" not in parent or "kind" not in c or parent.get("eff", 1) <= 1:
+            continue
+        if parent["kind"] in ("ThreadingBackend", "MultiprocessingBackend") and c["kind"] in ("LokyBackend", "MultiprocessingBackend"):
+            bad.append("call %s (backend=%s, n_jobs=%s) made from a worker of a %s call resolved to %s with %d workers: "
+                       "nested worker processes" % (c["path"], levels[depth][0], asked_n, parent["kind"], c["kind"], c["eff"]))
     default = all(l[0] is None for l in levels)
     if default:
         # "the first nesting level runs on threads and deeper levels run sequentially" (below a call that went parallel)
@@ -415,6 +454,18 @@ def search_failing(ctx):
         bad = oracle_cpu(c, r)
         if bad:
             return bad, c
+    # real nested shapes x n_jobs in {-3,-2,-1,1,2,3,None} x explicit process backends below threads / daemonic workers,
+    # judged by the oracle rules that need no model (high-water, pids, "no worker processes below a worker")
+    trees = nested_guard_trees(ctx.rng, True, full=True)
+    import concurrent.futures as cf
+    with cf.ThreadPoolExecutor(6) as ex:
+        runs = list(ex.map(lambda it: run_tree(ctx, 7000 + it[0], it[1]), list(enumerate(trees))))
+    for lv, rr in zip(trees, runs):
+        if "inconclusive" in rr:
+            continue
+        bad, _, _ = judge_tree(lv, rr, None, 10 ** 9)
+        if bad:
+            return bad[0], {"mode": "nest", "levels": lv}
     return None
 
 
@@ -439,8 +490,14 @@ def run(ctx):
             ctx.note("Gen/T_njobs.v changed: the source of effective_n_jobs / cpu_count differs from the last run")
     except translate_c17.TranslateError as e:
         translator_ok = False
+        good = os.path.join(common.COQ, "Gen", ".T_njobs.v.good")
+        if os.path.exists(good):   # proofs are then checked against the last translation that was proved, not a stale one
+            common.write_if_changed(os.path.join(common.COQ, "Gen", "T_njobs.v"), open(good).read())
         ctx.note("translator rejected the source (%s); falling back to the hand model tie" % e)
     proofs_ok = ctx.standard_proof_stage("C15", search=lambda: search_failing(ctx))
+    if proofs_ok and translator_ok:
+        common.write_if_changed(os.path.join(common.COQ, "Gen", ".T_njobs.v.good"),
+                                open(os.path.join(common.COQ, "Gen", "T_njobs.v")).read())
     ctx.coq_build(["Gen/T_njobs.vo", "Model/NJobs.vo"])
     have_gen = translator_ok and os.path.exists(os.path.join(common.COQ, "Gen", "T_njobs.vo"))
 
